@@ -98,7 +98,8 @@ def _unknown_cat(dtype):
 
 
 def meta_vs(meta, computed):
-    """None or (class, message): does `computed` agree with the lazy meta (statement of C42)?"""
+    """[] or list of (class, cause, message): does `computed` agree with the lazy meta (statement of C42)?  One entry per
+    disagreeing (meta dtype -> computed dtype) pair, so that the finding key names the exact disagreement."""
     if isinstance(meta, (pd.DataFrame, pd.Series, pd.Index)):
         m2, c2 = meta, computed
         # documented: unknown categoricals only promise 'categorical'
@@ -106,12 +107,12 @@ def meta_vs(meta, computed):
             unk = [c for c in meta.columns if _unknown_cat(meta[c].dtype)]
             for c in unk:
                 if not isinstance(computed[c].dtype, pd.CategoricalDtype):
-                    return "dtype", f"meta column {c!r} is an (unknown) categorical, computed dtype {computed[c].dtype}"
+                    return [("dtype", f"category->{computed[c].dtype}", f"meta column {c!r} is an (unknown) categorical, computed dtype {computed[c].dtype}")]
             if unk:
                 m2, c2 = meta.drop(columns=unk), computed.drop(columns=unk)
         elif isinstance(meta, (pd.Series, pd.Index)) and type(meta) is type(computed) and _unknown_cat(meta.dtype):
             if not isinstance(computed.dtype, pd.CategoricalDtype):
-                return "dtype", f"meta is an (unknown) categorical, computed dtype {computed.dtype}"
+                return [("dtype", f"category->{computed.dtype}", f"meta is an (unknown) categorical, computed dtype {computed.dtype}")]
             m2, c2 = meta.astype(object), computed.astype(object)
         if isinstance(m2, (pd.DataFrame, pd.Series)) and isinstance(c2, (pd.DataFrame, pd.Series)) and _unknown_cat(m2.index.dtype) and isinstance(c2.index.dtype, pd.CategoricalDtype):
             m2, c2 = m2.copy(deep=False), c2.copy(deep=False)
@@ -120,16 +121,37 @@ def meta_vs(meta, computed):
         if msg is None and isinstance(m2, pd.Index) and list(m2.names) != list(c2.names):
             msg = f"meta index names {list(m2.names)} != computed {list(c2.names)}"
         if msg is None:
-            return None
-        for prefix, cls in (("meta is", "type"), ("meta columns", "columns"), ("meta dtypes differ", "dtype"), ("meta dtype", "dtype"), ("meta name", "name"),
-                            ("meta index names", "index-names"), ("meta index dtype", "index-dtype")):
-            if msg.startswith(prefix):
-                return cls, msg
-        return "check-raised", msg
+            return []
+        return _classify(msg, m2, c2)
     # scalar meta
     if isinstance(computed, (pd.DataFrame, pd.Series, pd.Index)):
-        return "type", f"meta is a scalar ({type(meta).__name__}), computed {type(computed).__name__}"
-    return None
+        return [("type", f"scalar->{type(computed).__name__}", f"meta is a scalar ({type(meta).__name__}), computed {type(computed).__name__}")]
+    return []
+
+
+def _dt(t):
+    """dtype name without data (categories are data)"""
+    return "category" if isinstance(t, pd.CategoricalDtype) else str(t)
+
+
+def _classify(msg, meta, computed):
+    if msg.startswith("meta is"):
+        return [("type", f"{type(meta).__name__}->{type(computed).__name__}", msg)]
+    if msg.startswith("meta columns"):
+        same = sorted(map(str, meta.columns)) == sorted(map(str, computed.columns))
+        return [("columns", "order" if same else "names", msg)]
+    if msg.startswith("meta dtypes differ"):
+        pairs = sorted({f"{_dt(meta.dtypes.iloc[i])}->{_dt(computed.dtypes.iloc[i])}" for i in range(len(meta.columns)) if meta.dtypes.iloc[i] != computed.dtypes.iloc[i]})
+        return [("dtype", p, msg) for p in pairs]
+    if msg.startswith("meta dtype"):
+        return [("dtype", f"{_dt(meta.dtype)}->{_dt(computed.dtype)}", msg)]
+    if msg.startswith("meta name"):
+        return [("name", "series-name", msg)]
+    if msg.startswith("meta index names"):
+        return [("index-names", "index-names", msg)]
+    if msg.startswith("meta index dtype"):
+        return [("index-dtype", f"{_dt(meta.index.dtype)}->{_dt(computed.index.dtype)}", msg)]
+    return [("check-raised", "check-raised", msg)]
 
 
 QUIET = ("ok", "dask_raises", "not_lazy", "out_of_scope", "unsupported_api")
@@ -151,15 +173,18 @@ def evaluate(case, pxs, seed):
             meta = d._meta
             computed = d.compute()
             nout = d.npartitions if getattr(d, "ndim", 0) else 1
-            r = meta_vs(meta, computed)
-            if r is not None:
-                return f"meta-{r[0]}", "computed object: " + r[1], pxs, nout
-            if isinstance(meta, (pd.DataFrame, pd.Series, pd.Index)) and hasattr(d, "partitions"):
+            problems = [(f"meta-{c}", cause, "computed object: " + m) for c, cause, m in meta_vs(meta, computed)]
+            if not problems and isinstance(meta, (pd.DataFrame, pd.Series, pd.Index)) and hasattr(d, "partitions"):
                 pieces = dask.compute(*[d.partitions[i] for i in range(d.npartitions)])
+                seen = set()
                 for i, piece in enumerate(pieces):
-                    r = meta_vs(meta, piece)
-                    if r is not None:
-                        return f"partition-meta-{r[0]}", f"partition {i} of {d.npartitions} ({len(piece)} rows): " + r[1], pxs, nout
+                    for c, cause, m in meta_vs(meta, piece):
+                        cause = ("empty-partition:" if len(piece) == 0 else "") + cause
+                        if (c, cause) not in seen:
+                            seen.add((c, cause))
+                            problems.append((f"partition-meta-{c}", cause, f"partition {i} of {d.npartitions} ({len(piece)} rows): " + m))
+            if problems:
+                return "fail", problems, pxs, nout
     except Hang:
         raise
     except P.UnsupportedAPI as e:
@@ -201,15 +226,10 @@ def run_case(case, ctx, pxs=None):
     if len(prog) > 1:
         k, r = first_failing_prefix(case, ctx.seed)
         if r is not None:
-            status, detail = r[0], r[1]
+            detail = r[1]
     step = prog[k - 1]
-    key = f"{P.chain_sig(step)}:{status}:{known_class(step, status, detail, pxs[k - 1]) or input_class(pxs[k - 1])}"
-    ctx.violation(key, case, f"step {k} of {len(prog)}: {detail}")
-
-
-def known_class(step, status, detail, x):
-    """input classes of recorded findings (C42.findings.json)"""
-    return None
+    for cls, cause, msg in detail:
+        ctx.violation(f"{P.chain_sig(step)}:{cls}:{cause}", case, f"step {k} of {len(prog)} applied to {input_class(pxs[k - 1])}: {msg}")
 
 
 def run_shard(shard, ctx):
